@@ -214,6 +214,7 @@ def r2_routing(repo, report):
     c, init = repo.need_method("LinkedAdapter", "__init__")
     st = [src(n) for n in ast.walk(init) if isinstance(n, ast.Assign) and chain(n.targets[0]) == "self.front_adapter.name"]
     report.ob("C15.R2", "LinkedAdapter names its front part", st == ["self.front_adapter.name = self.name"], facts={"statement": st}, expected="self.front_adapter.name = self.name", loc=repo.loc(init))
+    _factory_names(repo, report)
     fn = repo.func("cli", "make_pipeline_from_args")
     from ..localroles import _names_of
 
@@ -225,6 +226,43 @@ def r2_routing(repo, report):
                 d[t] = "names of adapters" if _names_of("adapters")(n.value) else "names of adapters2" if _names_of("adapters2")(n.value) else src(n.value)
     ok = d == {"adapter_names": "names of adapters", "adapter_names2": "names of adapters2"}
     report.ob("C15.R2", "adapter name lists", ok, facts=d, expected={"adapter_names": "[a.name for a in adapters]", "adapter_names2": "[a.name for a in adapters2]"}, loc=repo.loc(fn))
+
+
+def _factory_names(repo, report):
+    """The name under which reads are routed is the adapter's: the name handed to the factory (the FASTA header of a
+    file: record) when there is one, else the NAME= prefix of the specification (None lets the class generate a number).
+    Explored: on every returning path of both factories the constructed adapter's name argument is exactly that."""
+    n_ob = 0
+    for fname in ("_make_not_linked_adapter", "_make_linked_adapter"):
+        fn = repo.func("parser", fname)
+        ps = params(fn)
+        if "name" not in ps:
+            raise Unrecognised(f"{fname}: no 'name' parameter", repo.loc(fn))
+
+        def hook(ex, node, env):
+            if chain(node.func) == "AdapterSpecification.parse":
+                side = vkey(ex.ev(node.args[1], env)).strip("'") if len(node.args) > 1 else ""
+                return Obj("SPEC" if side != "back" else "SPEC[back]", nonnull=True)
+            return None
+
+        rows = explore(repo, strip_docstring(fn.body), {p_: Obj(p_.upper()) for p_ in ps}, call_hook=hook, inline=False)
+        report.saw(function=f"parser.{fname}", valuations=len(rows))
+        bad = []
+        k = 0
+        for r in rows:
+            if r.exit[0] != "return":
+                continue
+            k += 1
+            got = str(builder_rules.term_args(repo, vkey(r.exit[1])).get("name"))
+            given = r.valuation.get("isnone:NAME")
+            want = {True: ("SPEC.name",), False: ("NAME",), None: ()}[given]
+            if got not in want:
+                bad.append({"name parameter is None": given, "name argument": got})
+        n_ob += 1
+        report.ob("C15.R2", f"{fname}: the adapter is named as the caller says, else as the specification says", not bad and k >= 2, facts={"returning_paths": k, "problems": bad[:2]}, loc=repo.loc(fn), cases=len(rows),
+                  expected="name=<name parameter> when it is not None, else the specification's NAME= prefix (the first part's for a linked adapter)",
+                  why=(f"with name parameter {'absent' if bad[0]['name parameter is None'] else 'given' if bad[0]['name parameter is None'] is False else 'not consulted'} the adapter is named {bad[0]['name argument']}: the output file of a {{name}} template is named after something else than the adapter's name (FASTA header / NAME= prefix)" if bad else ""))
+    report.floor("C15.R2", "adapter factories", n_ob, 2)
 
 
 def r3_mode(repo, report):
